@@ -270,7 +270,7 @@ def check_knn(case, stats):
 
 CHECKS = {'check_pairs': check_pairs, 'check_chunks': check_chunks, 'check_knn': check_knn}
 _STRATS = {'check_pairs': pairs_case, 'check_chunks': chunks_case, 'check_knn': knn_case}
-_N = {'quick': 1600, 'thorough': 20000}
+_N = {'quick': 1600, 'thorough': 40000}
 
 
 def shards(tier):
